@@ -99,7 +99,7 @@ func variantOf(base []grammar.Token, r *rand.Rand, features map[string]bool) str
 func checkC11(c *core.Ctx) {
 	nv := c.N(8, 40)
 	c.Rule(fmt.Sprintf("base chord texts rendered from the piece model in degree notation and in note names (any key), each with %d equivalent spellings: blanks/tabs/newlines/CRLF/`;` comments at any token boundary in normal mode (also leading, trailing, comment at end of input with and without newline), blanks after `_` and before {} keys and values, `_` before symbols that do not need it, leading zeros on every number, # and b replaced by the Unicode signs; "+
-		"every variant is verified by the reference tokenizer to carry the same tokens; `text conv` must print the same bytes and succeed equally for all members of a class; non-trivial = class with >= 3 distinct texts, one with a comment and one with a Unicode accidental; distinct by base text", nv))
+		"comments without text, and megabytes of comments/blank lines between the chords (`huge`); every variant is verified by the reference tokenizer to carry the same tokens; `text conv` must print the same bytes and succeed equally for all members of a class; non-trivial = class with >= 3 distinct texts, one with a comment and one with a Unicode accidental; distinct by base text", nv))
 	c.Assume("grammar.Tokenize (documented tokenisation) decides which spellings are equivalent", "byte equality of stdout")
 
 	c.Stream("class", c.N(1200, 12000), func(i int, r *rand.Rand) {
